@@ -254,7 +254,7 @@ def _exit_setsketch(ctx, facts):
         ctx.violation("EXIT", fid, "draw loop", hirq.loc(fn), "expected one top-level loop, found %d" % len(loops))
         return 0
     loop = loops[0]
-    accepted = [("cmp", "-self.lower_k", "<", "lb_xj"), ("cmp", "k", "<=", "self.lower_k")]
+    accepted = [("cmp", "-self.lower_k", "<", "lb_xj"), ("cmp", "-lb_xj", "<", "self.lower_k"), ("cmp", "k", "<=", "self.lower_k")]
     n = 0
     seen = []
     for (kind, node) in loop_exits(fn, loop):
